@@ -185,6 +185,14 @@ func resultKinds() []kindSpec {
 			return FuncRet(StructOf(idField, FieldT{Name: fmt.Sprintf("Tag%d", b.next()), Ty: Basic("bool")}))
 		}},
 		{"named-unicode", func(b *PB, pkg int) *Ty { return b.Carrier(pkg, fmt.Sprintf("Ωm%d", b.next())) }},
+		{"named-unicode-own-name-collides", func(b *PB, pkg int) *Ty {
+			// an unexported type of the injector's own package: the local derived from its name
+			// collides with the type itself, so wire falls back to the package-prefixed spelling
+			if pkg == 0 {
+				return b.Carrier(pkg, fmt.Sprintf("école%d", b.next()))
+			}
+			return b.Carrier(pkg, fmt.Sprintf("École%d", b.next()))
+		}},
 		{"named-underscore", func(b *PB, pkg int) *Ty { return b.Carrier(pkg, fmt.Sprintf("T_%d_", b.next())) }},
 		{"named-single-letter", func(b *PB, pkg int) *Ty {
 			// one-rune exported names (Cyrillic capitals), unique per program
@@ -1061,6 +1069,63 @@ func paramLocalCollisionFamily() []*Program {
 						out = append(out, b.P)
 					}
 				}
+			}
+		}
+	}
+	return out
+}
+
+// dirVsPackageNameFamily (C14): packages whose clause name differs from their directory name in
+// exactly the way wire's numbered disambiguation spells things: package bar in directory bar,
+// package bar again in directories bar2 and bar3 (and a package named bar2 in directory other).
+// The injector uses them in every order, so each gets its turn at being registered second.
+func dirVsPackageNameFamily() []*Program {
+	var out []*Program
+	n := 0
+	layouts := [][][2]string{ // {dir, package name}
+		{{"bar", "bar"}, {"bar2", "bar"}},
+		{{"bar", "bar"}, {"bar2", "bar"}, {"bar3", "bar"}},
+		{{"bar2", "bar"}, {"bar", "bar2"}},
+		{{"bar", "bar"}, {"other", "bar2"}, {"bar2", "bar"}},
+		{{"fmt2", "fmt"}, {"fmt", "fmt2"}},
+	}
+	for _, lay := range layouts {
+		perms := orderedSubsets(func() []int {
+			var x []int
+			for i := range lay {
+				x = append(x, i)
+			}
+			return x
+		}())
+		for _, perm := range perms {
+			if len(perm) != len(lay) {
+				continue
+			}
+			for _, pkgIdent := range []string{"", "bar"} {
+				n++
+				b := NewPB(fmt.Sprintf("dn%03d", n), "app")
+				for _, l := range lay {
+					b.P.Pkgs = append(b.P.Pkgs, &Pkg{Name: l[1], Dir: l[0]})
+				}
+				var ps []*Ty
+				var items []*Item
+				for _, k := range perm {
+					t := b.Carrier(k+1, fmt.Sprintf("T%d", k))
+					items = append(items, b.Func(k+1, fmt.Sprintf("New%d", k), t, false, false))
+					ps = append(ps, t)
+				}
+				top := b.Carrier(0, "Top")
+				items = append(items, b.Func(0, "NewTop", top, false, false, ps...))
+				b.Inj("Init", top, false, false, nil, refs(items...)...)
+				if pkgIdent != "" {
+					// the injector's package itself declares an identifier named like the packages
+					b.P.PkgVars = []string{"var " + pkgIdent + " = 1"}
+					b.P.PkgIdents = []string{pkgIdent}
+				}
+				cell := fmt.Sprintf("dir-vs-package-name/%v/order=%v/pkg-ident=%q", lay, perm, pkgIdent)
+				b.P.Note = cell
+				b.P.Feat = map[string]string{"cell": cell}
+				out = append(out, b.P)
 			}
 		}
 	}
